@@ -6,7 +6,8 @@ TRUSTED_BASE = [
     "Lean 4.33.0 kernel; axioms allowed: propext, Classical.choice, Quot.sound (audited per theorem by #print axioms)",
     "no sorry/admit/native_decide/bv_decide/implemented_by/unsafe/own axioms (grep on every run)",
     "harness translate (Go, go/ast): /repo -> lean/RosedVerif/Gen/*.lean, validated by execution against the real predicates",
-    "harness/gofn.go (typed Go -> Lean translator for 53 function bodies, Gen/Code.lean) and Model/GoPrims.lean (one-line map Go primitive -> model primitive, loop combinators): trusted; each generated definition is PROVED equal to the hand model (Model/GenEq/*), unbounded Int instead of 64-bit wrap-around, value-level (no aliasing)",
+    "harness/gofn.go (typed Go -> Lean translator for 65 function bodies: every public operation of package rosed, internal/manip, internal/tb, Gen/Code.lean) and Model/GoPrims.lean (one-line map Go primitive -> model primitive, loop combinators): trusted; each generated definition is PROVED equal to the hand model (Model/GenEq/*), unbounded Int instead of 64-bit wrap-around, value-level (no aliasing)",
+    "harness/goheap.go (pointer-level Go -> Lean translator for internal/gem, Gen/GemCode.lean) and Heap/GoHeapPrims.lean (heap monad, cell load/store/alloc, loop combinators): trusted; each generated definition is PROVED equal to the layer-H function (Model/GenEq/Gem*.lean); slices are values (no backing-array aliasing), element writes through a cell leave no event, allocations that are dead from birth are not modelled",
     "hand-written Lean model of the Go code (lean/RosedVerif/Model, Gem/Rules.lean), tied by the correspondence check; behaviour no generated case exercises is not covered",
     "compiled driver (Lean compiler + C toolchain) computes what the kernel-checked definitions denote",
     "Go semantics modelled, not verified: strings as UTF-8, []rune conversion, slices, strings.*, regexp ' +', fmt %s, float64 multiply",
@@ -189,6 +190,17 @@ REGEN = {
     "WrapOpts": ["editorWrapOpts", "editorWrap"],
     "IndentOpts": ["editorIndentOpts", "editorIndent"],
     "InsertTable": ["editorInsertTableOpts", "editorInsertTable"],
+    # T2
+    "BlockOps": ["blockAppendBlock", "blockRemove"],
+    "TwoCol": ["editorInsertTwoColumnsOpts", "editorInsertTwoColumns"],
+    "DefTable": ["editorInsertDefinitionsTableOpts", "editorInsertDefinitionsTable"],
+    # internal/gem at pointer level (harness/goheap.go -> Gen/GemCode.lean, layer H)
+    "GemSplit": ["gemSplit"],
+    "Gem": ["gemInitialized", "gemNew", "gemClone", "gemRunes", "gemString", "gemIsEmpty", "gemAdd", "gemLen",
+            "gemCharAt", "gemGraphemeIndexes"],
+    "GemOps": ["gemSub", "gemSetCharAt", "gemRepeat", "gemRepeatStr", "gemIndexFunc"],
+    "GemInv": [],
+    "GemRev": ["gemReverse", "gemLastIndexFunc"],
 }
 REGEN_OF = {
     "C04": ["Chars"], "C05": ["Chars", "Commit"], "C06": ["Collapse", "Wrap", "WrapOpts"],
@@ -197,7 +209,13 @@ REGEN_OF = {
     "C13": ["Align"], "C14": ["Combine", "Wrap"], "C15": ["Combine", "Wrap"], "C16": ["Table", "InsertTable", "Block"],
     "C17": ["Options", "WrapOpts", "IndentOpts", "Collapse", "Apply", "Paras", "InsertTable"],
     "C18": ["Block", "Chars", "Lines", "Commit", "Edit"],
+    "C19": ["GemSplit", "Gem", "GemOps", "GemInv", "GemRev"], "C20": ["Gem", "GemOps", "GemInv", "GemRev"],
+    "C01": ["GemSplit"],
 }
+# T2: two-column layout (C14), definitions table (C15), both also delegation (C17) and totality (C18)
+for _p, _gs in (("C14", ["TwoCol"]), ("C15", ["BlockOps", "DefTable"]), ("C17", ["TwoCol", "BlockOps", "DefTable"]),
+                ("C18", ["TwoCol", "BlockOps", "DefTable"])):
+    REGEN_OF[_p] = REGEN_OF.get(_p, []) + _gs
 
 
 def regen_modules(root, pid):
@@ -215,7 +233,23 @@ def regen_modules(root, pid):
 REGEN_CXA = {"Chars": ["editorChars_cxA"], "Lines": ["editorLinesSel_cxA"], "Edit": ["editorInsert_cxA", "editorDelete_cxA"],
              "WrapOpts": ["editorWrapOpts_cxA", "phFresh_cxA"], "IndentOpts": ["editorIndentOpts_cxA"],
              "Paras": ["editorApplyGParagraphsOpts_cxA", "defaultsOk_cxA", "literal_map_cxA"],
-             "InsertTable": ["editorInsertTableOpts_cxA"]}
+             "InsertTable": ["editorInsertTableOpts_cxA"],
+             # hypotheses CellAlloc / GemOK discharged from the pool invariant H.Inv and for every history
+             "GemInv": ["gemOK_of_inv", "gemOK_histories", "gemLen_inv", "gemCharAt_inv", "gemGraphemeIndexes_inv", "gemSub_inv",
+                        "gemSetCharAt_inv", "gemIndexFunc_inv"],
+             "GemRev": ["gemReverse_inv", "gemLastIndexFunc_inv", "reverse_gemOK"]}
+REGEN_CXA.update({  # T2
+    "TwoCol": ["editorInsertTwoColumnsOpts_cxA", "editorInsertTwoColumns_cxA"],
+    "DefTable": ["editorInsertDefinitionsTableOpts_cxA", "editorInsertDefinitionsTable_cxA"]})
+
+# T1: Editor.AlignOpts / Align / JustifyOpts / Justify, tb.New, tb.Block.Apply
+REGEN["Block"] += ["blockNew", "blockApply"]
+REGEN.update({"AlignOpts": ["editorAlignOpts", "editorAlign"], "JustifyOpts": ["editorJustifyOpts", "editorJustify"]})
+for _pid, _groups in (("C13", ["AlignOpts"]), ("C12", ["JustifyOpts"]), ("C07", ["AlignOpts", "JustifyOpts"]),
+                      ("C11", ["AlignOpts", "JustifyOpts"]), ("C17", ["AlignOpts", "JustifyOpts"])):
+    REGEN_OF.setdefault(_pid, []).extend(_groups)
+REGEN_CXA.update({"AlignOpts": ["editorAlignOpts_cxA", "editorAlign_cxA"],
+                  "JustifyOpts": ["editorJustifyOpts_cxA", "editorJustify_cxA"]})
 
 
 def regen_theorems(pid):
